@@ -44,6 +44,8 @@ type c07World struct {
 	out   []*fundedTxn
 	mined int
 	log   []string
+	// noSync: mine() leaves the wallet un-notified (the chain manager is ahead of the wallet's store)
+	noSync bool
 }
 
 func (w *c07World) newWallet() {
@@ -139,6 +141,9 @@ func (w *c07World) mine(miner int) error {
 	c07mu.Unlock()
 	if err := w.n.CM.AddBlocks([]types.Block{b}); err != nil {
 		return err
+	}
+	if w.noSync {
+		return nil // the wallet has not been notified of the block yet
 	}
 	w.sync()
 	// confirmed transactions are no longer outstanding
@@ -617,6 +622,55 @@ func (w *c07World) agreement() string {
 	return ""
 }
 
+// c07LaggingStore: the chain manager is one or more blocks ahead of the wallet's store (the state after every
+// block until the subscriber has run), and one of those blocks is the one at which a payout of the wallet
+// matures. Balance, SpendableOutputs and input selection must still agree with one another.
+func c07LaggingStore() {
+	for _, reg := range []univ.Regime{univ.RegimeV1, univ.RegimeV2} {
+		w := newC07World(c07Base(reg), walletOpts{})
+		if err := w.mine(0); err != nil { // the wallet's address mines a block: an immature payout
+			run.Violate("c07:lagging-setup", err.Error(), nil)
+			continue
+		}
+		var maturity uint64
+		for _, e := range w.st.UTXOs {
+			if e.MaturityHeight > maturity {
+				maturity = e.MaturityHeight
+			}
+		}
+		for lag := 1; w.n.CM.Tip().Height <= maturity+1 && lag < 400; lag++ {
+			w.noSync = true
+			err := w.mine(1)
+			w.noSync = false
+			if err != nil {
+				run.Violate("c07:lagging-setup", err.Error(), nil)
+				break
+			}
+			run.Add(1, 1, 1, 1)
+			what := fmt.Sprintf("[%s] chain at height %d, wallet store at height %d, payout of the wallet maturing at %d", reg, w.n.CM.Tip().Height, w.st.TipIdx.Height, maturity)
+			if v := w.agreement(); v != "" {
+				parts := strings.SplitN(v, "|", 2)
+				run.Violate(parts[0]+":store-behind-chain", what+": "+parts[1], map[string]any{"regime": string(reg)})
+				break
+			}
+			// the largest amount Balance calls spendable can be funded
+			bal, _ := w.w.Balance()
+			if !bal.Spendable.IsZero() {
+				if v := w.fund(bal.Spendable, false); v != "" {
+					parts := strings.SplitN(v, "|", 2)
+					run.Violate(parts[0]+":store-behind-chain", what+": funding Balance().Spendable: "+parts[1], map[string]any{"regime": string(reg)})
+					break
+				}
+				w.release()
+			}
+			if lag%2 == 0 {
+				w.sync() // catch up every other block, so that both lag 1 and lag 2 occur around the maturity height
+			}
+		}
+		w.w.Close()
+	}
+}
+
 func (w *c07World) restart() string {
 	w.newWallet()
 	w.out = nil // reservations are in-memory only
@@ -664,6 +718,7 @@ var c07Setups = []string{"plain", "immature", "poolspent", "unconfirmed", "locke
 
 func c07() {
 	c07CrossVersion()
+	c07LaggingStore()
 	if os.Getenv("VERIF_C07_ONLY") == "crossversion" { // debugging aid
 		return
 	}
